@@ -74,12 +74,20 @@ def C01_NetDatagramOk (c : SessIn.Cipher) (enc : Bytes → Bytes) (frames : List
   (∃ f ∈ frames, ∃ nonce : Bytes, nonce.length = nonceSize ∧ d = enc (Wire.cryptFrame c.crc nonce f)) ∨
   d.length < cryptHeaderSize ∨ c.crc (covered c d) ≠ storedCrc c d
 
-/-- one datagram through the gate: either nothing happens, or `kcpInput` is called with an emitted frame -/
-theorem C01_gate_step {σ : Type} (c : SessIn.Cipher) (enc : Bytes → Bytes) (hc : C01_BlockCipherLaws c enc)
-    (kcpInput : σ → Bytes → σ) (s : σ) (frames : List Bytes) (d : Bytes) (hd : C01_NetDatagramOk c enc frames d) :
+/-- soundness of the gate against a network whose power over one datagram is `Ok frames d`
+(`frames` = what the peer has emitted): for ANY core behind `kcpInput`, one datagram through
+`packetInput` either has no effect at all or hands `kcpInput` an emitted frame -/
+def C01_GateSound (c : SessIn.Cipher) (Ok : List Bytes → Bytes → Prop) : Prop :=
+  ∀ (σ : Type) (kcpInput : σ → Bytes → σ) (s : σ) (frames : List Bytes) (d : Bytes), Ok frames d →
     ((SessIn.sessionPacketInput c kcpInput s d).delivered = none ∧ (SessIn.sessionPacketInput c kcpInput s d).st = s) ∨
     (∃ f ∈ frames, (SessIn.sessionPacketInput c kcpInput s d).delivered = some f ∧
-      (SessIn.sessionPacketInput c kcpInput s d).st = kcpInput s f) := by
+      (SessIn.sessionPacketInput c kcpInput s d).st = kcpInput s f)
+
+/-- CRC-style ciphers: the gate is sound (`C06_gate_session` for what the check catches, the round
+trip for genuine ciphertexts) -/
+theorem C01_gate_step (c : SessIn.Cipher) (enc : Bytes → Bytes) (hc : C01_BlockCipherLaws c enc) :
+    C01_GateSound c (C01_NetDatagramOk c enc) := by
+  intro σ kcpInput s frames d hd
   rcases hd with ⟨f, hf, nonce, hn, rfl⟩ | hbad
   · have hg := C01_gate_genuine c enc hc nonce f hn
     unfold SessIn.sessionPacketInput
@@ -92,6 +100,45 @@ theorem C01_gate_step {σ : Type} (c : SessIn.Cipher) (enc : Bytes → Bytes) (h
     have h := C06_gate_session c kcpInput s d hc.kind hbad
     exact ⟨h.2.1, h.1⟩
 
+/-! ### AEAD -/
+
+/-- what the reduction needs of an AEAD (`aseal nonce plaintext` = `aead.Seal`): the two laws that
+`C08_aead_in_buffer` assumes of the primitive -/
+structure C01_AeadLaws (c : SessIn.Cipher) (ns ov : Nat) (aseal : Bytes → Bytes → Bytes) : Prop where
+  kind : c.kind = .aead ns ov
+  /-- `Open` undoes `Seal` under the same nonce -/
+  open_seal : ∀ n p : Bytes, c.aopen n (aseal n p) = some p
+  /-- `Seal` adds exactly `Overhead()` bytes -/
+  seal_length : ∀ n p : Bytes, (aseal n p).length = p.length + ov
+
+/-- AEAD: the datagram is `nonce ‖ Seal(nonce, frame)` for an emitted frame (`C09_crypt_header`), or
+too short, or `Open` rejects it (unforgeability is the cryptographic assumption) -/
+def C01_NetDatagramOkAead (c : SessIn.Cipher) (ns ov : Nat) (aseal : Bytes → Bytes → Bytes)
+    (frames : List Bytes) (d : Bytes) : Prop :=
+  (∃ f ∈ frames, ∃ nonce : Bytes, nonce.length = ns ∧ d = nonce ++ aseal nonce f) ∨
+  d.length < ns + ov ∨ c.aopen (d.take ns) (d.drop ns) = none
+
+theorem C01_gate_step_aead (c : SessIn.Cipher) (ns ov : Nat) (aseal : Bytes → Bytes → Bytes)
+    (hc : C01_AeadLaws c ns ov aseal) : C01_GateSound c (C01_NetDatagramOkAead c ns ov aseal) := by
+  intro σ kcpInput s frames d hd
+  rcases hd with ⟨f, hf, nonce, hn, rfl⟩ | hbad
+  · have hg : SessIn.cryptGate c (nonce ++ aseal nonce f) = .ok f := by
+      unfold SessIn.cryptGate
+      rw [hc.kind]
+      simp only []
+      have hl : ¬ (nonce ++ aseal nonce f).length < ns + ov := by
+        rw [List.length_append, hc.seal_length, hn]; omega
+      rw [if_neg hl, List.take_left' hn, List.drop_left' hn, hc.open_seal]
+    unfold SessIn.sessionPacketInput
+    rw [hg]
+    simp only []
+    by_cases hm : f.length < SessIn.minPacket
+    · rw [if_pos hm]; left; exact ⟨rfl, rfl⟩
+    · rw [if_neg hm]; right; exact ⟨f, hf, rfl, rfl⟩
+  · left
+    have h := C06_gate_aead c kcpInput s d ns ov hc.kind hbad
+    exact ⟨h.2.1, h.1⟩
+
 /-- feed a list of ciphertext datagrams through `packetInput`: final state and the frames that
 reached `kcpInput`, in order -/
 def C01_cipherFeed {σ : Type} (c : SessIn.Cipher) (kcpInput : σ → Bytes → σ) : σ → List Bytes → σ × List Bytes
@@ -101,14 +148,15 @@ def C01_cipherFeed {σ : Type} (c : SessIn.Cipher) (kcpInput : σ → Bytes → 
      (SessIn.sessionPacketInput c kcpInput s d).delivered.toList ++
        (C01_cipherFeed c kcpInput (SessIn.sessionPacketInput c kcpInput s d).st rest).2)
 
-/-- **Cipher reduction.**  For ANY core behind `kcpInput` (`σ` is everything behind the gate) and
-any sequence of datagrams each of which is a replayed genuine ciphertext or a corruption the check
-catches: every frame that reaches `kcpInput` is a frame the peer emitted, and the final state is the
+/-- **Cipher reduction.**  For ANY core behind `kcpInput` (`σ` is everything behind the gate), a
+cipher whose gate is sound against the network `Ok` (`C01_gate_step`: CRC-style ciphers;
+`C01_gate_step_aead`: AEAD) and any sequence of datagrams each of which is a replayed genuine
+ciphertext or a corruption the check catches: every frame that reaches `kcpInput` is a frame the peer emitted, and the final state is the
 state obtained by calling `kcpInput` on exactly those frames in that order — the corrupting network
 on ciphertext IS a replay-only (drop / duplicate / reorder) network on plaintext frames. -/
-theorem C01_cipher_reduction {σ : Type} (c : SessIn.Cipher) (enc : Bytes → Bytes) (hc : C01_BlockCipherLaws c enc)
-    (kcpInput : σ → Bytes → σ) (frames : List Bytes) :
-    ∀ (ds : List Bytes) (s : σ), (∀ d ∈ ds, C01_NetDatagramOk c enc frames d) →
+theorem C01_cipher_reduction {σ : Type} (c : SessIn.Cipher) (Ok : List Bytes → Bytes → Prop)
+    (hg : C01_GateSound c Ok) (kcpInput : σ → Bytes → σ) (frames : List Bytes) :
+    ∀ (ds : List Bytes) (s : σ), (∀ d ∈ ds, Ok frames d) →
       (∀ p ∈ (C01_cipherFeed c kcpInput s ds).2, p ∈ frames) ∧
       (C01_cipherFeed c kcpInput s ds).1 = (C01_cipherFeed c kcpInput s ds).2.foldl kcpInput s := by
   intro ds
@@ -122,7 +170,7 @@ theorem C01_cipher_reduction {σ : Type} (c : SessIn.Cipher) (enc : Bytes → By
       (C01_cipherFeed c kcpInput (SessIn.sessionPacketInput c kcpInput s d).st rest).1 =
         ((SessIn.sessionPacketInput c kcpInput s d).delivered.toList ++
           (C01_cipherFeed c kcpInput (SessIn.sessionPacketInput c kcpInput s d).st rest).2).foldl kcpInput s
-    rcases C01_gate_step c enc hc kcpInput s frames d (hds d (List.mem_cons_self ..)) with ⟨h1, h2⟩ | ⟨f, hf, h1, h2⟩
+    rcases hg σ kcpInput s frames d (hds d (List.mem_cons_self ..)) with ⟨h1, h2⟩ | ⟨f, hf, h1, h2⟩
     · rw [h1]
       refine ⟨fun p hp => ih1 p (by simpa using hp), ?_⟩
       rw [ih2, h2]; rfl
@@ -155,16 +203,16 @@ def C01_crun (c : SessIn.Cipher) (s : SessSys) (ops : List C01_COp) : SessSys :=
 
 /-- every datagram the network delivers is, at the time of delivery, the encryption of a frame `A`
 has emitted so far or a corruption the check catches -/
-def C01_CRunOk (c : SessIn.Cipher) (enc : Bytes → Bytes) : SessSys → List C01_COp → Prop
+def C01_CRunOk (c : SessIn.Cipher) (Ok : List Bytes → Bytes → Prop) : SessSys → List C01_COp → Prop
   | _, [] => True
   | s, .net data now :: rest =>
-    C01_NetDatagramOk c enc s.A.wire data ∧ C01_CRunOk c enc (C01_cstep c s (.net data now)) rest
-  | s, op :: rest => C01_CRunOk c enc (C01_cstep c s op) rest
+    Ok s.A.wire data ∧ C01_CRunOk c Ok (C01_cstep c s (.net data now)) rest
+  | s, op :: rest => C01_CRunOk c Ok (C01_cstep c s op) rest
 
 /-- a run with cipher under the corrupting network is a run of the plain system under the
 replay-only network -/
-theorem C01_crun_is_plain (c : SessIn.Cipher) (enc : Bytes → Bytes) (hc : C01_BlockCipherLaws c enc) :
-    ∀ (ops : List C01_COp) (s : SessSys), C01_CRunOk c enc s ops →
+theorem C01_crun_is_plain (c : SessIn.Cipher) (Ok : List Bytes → Bytes → Prop) (hg : C01_GateSound c Ok) :
+    ∀ (ops : List C01_COp) (s : SessSys), C01_CRunOk c Ok s ops →
       ∃ plain : List SSOp, C01_crun c s ops = ssrun s plain := by
   intro ops
   induction ops with
@@ -181,7 +229,7 @@ theorem C01_crun_is_plain (c : SessIn.Cipher) (enc : Bytes → Bytes) (hc : C01_
     | net data now =>
       obtain ⟨hd, hrest⟩ := hok
       obtain ⟨pl, h⟩ := ih (C01_cstep c s (.net data now)) hrest
-      rcases C01_gate_step c enc hc (fun x p => sessStep x (.input p now)) s.B s.A.wire data hd with
+      rcases hg SessG (fun x p => sessStep x (.input p now)) s.B s.A.wire data hd with
         ⟨_, h2⟩ | ⟨f, hf, _, h2⟩
       · refine ⟨pl, ?_⟩
         show C01_crun c (C01_cstep c s (.net data now)) rest = _
@@ -200,18 +248,20 @@ theorem C01_crun_is_plain (c : SessIn.Cipher) (enc : Bytes → Bytes) (hc : C01_
           simp [ssstep, hi]
         rw [this]
 
-/-- **`C01_session_cipher`.**  Two sessions with a CRC-style cipher on the path `A → B`; the network
+/-- **`C01_session_cipher`.**  Two sessions with a cipher on the path `A → B` whose gate is sound
+against the network `Ok` (instances: `C01_gate_step` for CRC-style ciphers with
+`Ok = C01_NetDatagramOk c enc`, `C01_gate_step_aead` for AEAD); the network
 may drop, duplicate, reorder, delay, replay and CORRUPT ciphertext datagrams, as long as every
 corruption is one the integrity check catches (`C01_CRunOk`; which corruptions CRC-32 is guaranteed to
 catch is C06's subject: `C06_crc32_burst`).  Otherwise as `C01_session_plain`.  The bytes `B.Read`
 has returned are a prefix of the bytes `A.WriteBuffers` has accepted. -/
-theorem C01_session_cipher (c : SessIn.Cipher) (enc : Bytes → Bytes) (hc : C01_BlockCipherLaws c enc)
+theorem C01_session_cipher (c : SessIn.Cipher) (Ok : List Bytes → Bytes → Prop) (hg : C01_GateSound c Ok)
     (sA sB : Sess) (hA : Fresh sA.k) (hB : Fresh sB.k) (hbB : sB.bufptr = [])
     (hsn : sB.k.rcv_nxt = sA.k.snd_nxt) (hm : 0 < sA.k.mss.toNat) (ops : List C01_COp)
-    (hnet : C01_CRunOk c enc ⟨{ s := sA }, { s := sB }⟩ ops)
+    (hnet : C01_CRunOk c Ok ⟨{ s := sA }, { s := sB }⟩ ops)
     (hL : (C01_crun c ⟨{ s := sA }, { s := sB }⟩ ops).A.log.length < 2 ^ 32) :
     (C01_crun c ⟨{ s := sA }, { s := sB }⟩ ops).B.rd <+: (C01_crun c ⟨{ s := sA }, { s := sB }⟩ ops).A.wr := by
-  obtain ⟨plain, h⟩ := C01_crun_is_plain c enc hc ops _ hnet
+  obtain ⟨plain, h⟩ := C01_crun_is_plain c Ok hg ops _ hnet
   rw [h] at hL ⊢
   exact C01_session_plain sA sB hA hB hbB hsn hm plain hL
 
